@@ -46,6 +46,9 @@ func proveParallel(a, b, baseA, baseB ssa.Value, assumed map[[2]ssa.Value]bool) 
 		if ok1 && ok2 && ca.Value != nil && cb.Value != nil && ca.Value.ExactString() == cb.Value.ExactString() {
 			return proveParallel(ba.X, bb.X, baseA, baseB, assumed)
 		}
+		if !ok1 && !ok2 && ba.Y == bb.Y {
+			return proveParallel(ba.X, bb.X, baseA, baseB, assumed)
+		}
 	}
 	return false
 }
@@ -70,6 +73,10 @@ func webRoots(v ssa.Value) []ssa.Value {
 			if x.Op == token.ADD {
 				if _, ok := x.Y.(*ssa.Const); ok {
 					walk(x.X)
+					return
+				}
+				if _, isPhi := x.X.(*ssa.Phi); isPhi && x.Block() != nil && inLoop(x.Block()) && !isMulOrParam(x.Y) {
+					walk(x.X) // x += y with a computed y inside a loop
 					return
 				}
 			}
@@ -100,12 +107,27 @@ func shiftSites(v ssa.Value) []*ssa.BinOp {
 				if _, ok := x.Y.(*ssa.Const); ok {
 					out = append(out, x)
 					walk(x.X)
+				} else if _, isPhi := x.X.(*ssa.Phi); isPhi && inLoop(x.Block()) && !isMulOrParam(x.Y) {
+					out = append(out, x)
+					walk(x.X)
 				}
 			}
 		}
 	}
 	walk(v)
 	return out
+}
+
+// isMulOrParam: y is a parameter or a product - the shape of "start + length" / "num*stride", i.e. an
+// initialisation of a bound rather than a shift of it.
+func isMulOrParam(y ssa.Value) bool {
+	switch x := y.(type) {
+	case *ssa.Parameter:
+		return true
+	case *ssa.BinOp:
+		return x.Op == token.MUL
+	}
+	return false
 }
 
 func ruleC17(c *Ctx) {
@@ -135,39 +157,72 @@ func ruleC17(c *Ctx) {
 	c.useFn(cb)
 	// ---- generator
 	gtb := newTB(gen)
-	rt, _, ok := singleReturnTerm(gen, 0)
-	good := false
-	var alpha string
-	if ok && rt.isBin("+") && rt.Args[0].isCall("(*bytes.Buffer).String") {
-		b := rt.Args[0].String()
-		sfx := rt.Args[1]
-		if sfx.Op == "slice" && sfx.Args[0].String() == b && sfx.Args[1].isConst("0") {
-			base, k := sfx.Args[2].linear()
-			good = base != nil && base.isParam(0) && k == -1
-		}
-		ws := bufWrites(gen, gtb, rt.Args[0].Args[0].String())
-		okW := len(ws) == 1
-		if okW {
-			a := ws[0].arg
-			if a.Op == "index" || a.Op == "each" {
-				if s, isStr := a.Args[0].constStr(); isStr {
-					alpha = s
+	// the alphabet: a constant string indexed by a generated digit, in the generator or its closures
+	alphaSet := map[string]bool{}
+	gfs := append([]*ssa.Function{gen}, gen.AnonFuncs...)
+	for _, f := range gfs {
+		ftb := newTB(f)
+		eachInstr(f, func(i ssa.Instruction) {
+			var x ssa.Value
+			switch v := i.(type) {
+			case *ssa.Index:
+				x = v.X
+			case *ssa.Lookup:
+				x = v.X
+			}
+			if x != nil && isStringType(x.Type()) {
+				if str, ok := ftb.T(x).constStr(); ok {
+					alphaSet[str] = true
 				}
 			}
-			okW = alpha != ""
-		}
-		c.check(okW, "TERM", "letters=alphabet[i]", gen.Pos(), "every emitted letter is alphabet[i] for a generated index i", "the generator does not emit exactly alphabet[i] per generated index (unrecognised shape)")
+		})
 	}
-	c.check(good, "TERM", "result=b+b[0:n-1]", gen.Pos(), "cyclic closure: the first n-1 letters are appended", "result is "+short(fmt.Sprint(rt))+"; want b + b[0:n-1]")
-	distinct := map[rune]bool{}
-	inACGT := true
-	for _, r := range alpha {
-		distinct[r] = true
-		if !strings.ContainsRune("ACGT", r) {
-			inACGT = false
+	if len(alphaSet) != 1 {
+		c.undecided("TABLE", "alphabet", gen.Pos(), fmt.Sprintf("%d constant strings are indexed in the generator, the model needs 1", len(alphaSet)))
+	} else {
+		var alpha string
+		for a := range alphaSet {
+			alpha = a
+		}
+		distinct := map[rune]bool{}
+		inACGT := true
+		for _, r := range alpha {
+			distinct[r] = true
+			if !strings.ContainsRune("ACGT", r) {
+				inACGT = false
+			}
+		}
+		c.check(len(alpha) == 4 && len(distinct) == 4 && inACGT, "TABLE", "alphabet", gen.Pos(), fmt.Sprintf("alphabet %q: 4 distinct letters of ACGT", alpha), fmt.Sprintf("alphabet %q is not a permutation of ACGT: the sequence is not over A, T, G, C or misses words", alpha))
+	}
+	// cyclic closure: result = b + b[0:n-1]
+	stG, whyG := unknown, "the result is not of the form b + b[0:k]"
+	var rt *Term
+	if alts := resultAlts(gtb, gen, 0); len(alts) == 1 {
+		rt = alts[0].T
+	}
+	if rt != nil && rt.isBin("+") {
+		b := rt.Args[0].String()
+		sfx := rt.Args[1]
+		if sfx.Op == "slice" && sfx.Args[0].String() == b && (sfx.Args[1].isConst("0") || sfx.Args[1].Op == "nil") {
+			base, k := sfx.Args[2].linear()
+			switch {
+			case base != nil && base.isParam(0) && k == -1:
+				stG = holds
+			case base != nil && base.isParam(0):
+				stG, whyG = broken, fmt.Sprintf("the cyclic closure appends the first n%+d letters; a linear De Bruijn sequence of order n needs exactly n-1 (length 4^n+n-1, the wrap-around words once)", k)
+			default:
+				whyG = "the closure appends b[0:" + short(sfx.Args[2].String()) + "]"
+			}
 		}
 	}
-	c.check(len(alpha) == 4 && len(distinct) == 4 && inACGT, "TABLE", "alphabet", gen.Pos(), fmt.Sprintf("alphabet %q: 4 distinct letters of ACGT", alpha), fmt.Sprintf("alphabet %q is not a permutation of ACGT", alpha))
+	c.judge(stG, "TERM", "result=b+b[0:n-1]", gen.Pos(), "cyclic closure: the first n-1 letters are appended", whyG)
+	if rt != nil && rt.isBin("+") && rt.Args[0].isCall("(*bytes.Buffer).String") {
+		ws := bufWrites(gen, gtb, rt.Args[0].Args[0].String())
+		okW := len(ws) == 1 && (ws[0].arg.Op == "index" || ws[0].arg.Op == "each")
+		c.checkShape(okW, "TERM", "letters=alphabet[i]", gen.Pos(), "every emitted letter is alphabet[i] for a generated index i", "the generator's letter writes were not recognised")
+	} else {
+		c.undecided("TERM", "letters=alphabet[i]", gen.Pos(), "the generator does not assemble its result in one buffer")
+	}
 
 	// ---- barcodes
 	tb := newTB(cb)
@@ -175,12 +230,25 @@ func ruleC17(c *Ctx) {
 	nApp := 0
 	eachInstr(cb, func(i ssa.Instruction) {
 		if cl, ok := i.(*ssa.Call); ok && calleeName(cl) == "builtin:append" && tname(cl.Type()) == "[]string" {
-			app = cl
-			nApp++
+			isWindow := false
+			if rtb := tb.T(cl); len(rtb.Args) == 2 {
+				rtb.Args[1].walk(func(x *Term) {
+					if x.Op == "partial" && len(x.Args) == 1 {
+						if sl, ok := x.Args[0].V.(*ssa.Slice); ok && x.Args[0].Op == "slice" && isStringType(sl.X.Type()) {
+							isWindow = true
+						}
+					}
+				})
+			}
+			if isWindow {
+				app = cl
+				nApp++
+			}
 		}
 	})
 	if nApp != 1 {
-		c.bad("INVARIANT", "append site", cb.Pos(), fmt.Sprintf("%d append sites for barcodes, want 1", nApp))
+		c.undecided("INVARIANT", "append site", cb.Pos(), fmt.Sprintf("%d append sites for barcodes, the model needs 1", nApp))
+		checkReturnIs(c, "TERM", "CreateBarcodes", w.fn("primers", "CreateBarcodes"), 0, "call[poly/primers.CreateBarcodesWithBannedSequences](param[0], param[1], slice(zero[[0]string], nil, nil), slice(zero[[0]func(string) bool], nil, nil))", "CreateBarcodes = CreateBarcodesWithBannedSequences(length, n, none, none)")
 		return
 	}
 	// the appended element: slice(debruijn, S, E)
@@ -194,49 +262,106 @@ func ruleC17(c *Ctx) {
 		}
 	})
 	deb := "call[poly/primers.NucleobaseDeBruijnSequence](param[1])"
-	if win == nil || tb.T(win.X).String() != deb || win.Low == nil || win.High == nil {
-		c.bad("INVARIANT", "barcode=debruijn[start:end]", app.Pos(), "the appended barcode is not a window debruijn[start:end] of NucleobaseDeBruijnSequence(maxSubSequence)")
+	if win == nil || win.Low == nil || win.High == nil {
+		c.undecided("INVARIANT", "barcode=debruijn[start:end]", app.Pos(), "the appended barcode is not a window x[start:end]")
+		return
+	}
+	if got := tb.T(win.X); got.String() != deb {
+		st := stateOf(false, vocabOf(deb), got)
+		if st == broken && !localDiff(got, deb) {
+			st = unknown
+		}
+		c.judge(st, "INVARIANT", "barcode=debruijn[start:end]", app.Pos(), "", "barcodes are cut from "+short(got.String())+"; want the De Bruijn sequence of order maxSubSequence")
 		return
 	}
 	S, E := win.Low, win.High
 	// roots
 	sr, er := webRoots(S), webRoots(E)
 	if len(sr) != 1 || len(er) != 1 {
-		c.bad("INVARIANT", "end-start=length", app.Pos(), fmt.Sprintf("window bounds have %d/%d initialisations, want one each (unrecognised shape)", len(sr), len(er)))
+		c.undecided("INVARIANT", "end-start=length", app.Pos(), fmt.Sprintf("window bounds have %d/%d initialisations, the model needs one each", len(sr), len(er)))
 		return
 	}
-	eb, ek := tb.T(er[0]).linear()
-	_ = ek
-	okInit := false
+	// shifts of start paired, block by block, with shifts of another counter
+	pairing := func(other ssa.Value, what, consequence string) (int, string) {
+		os := shiftSites(other)
+		for _, sh := range shiftSites(S) {
+			if sh == sr[0] {
+				continue
+			}
+			found := false
+			for _, o := range os {
+				if o.Block() == sh.Block() && (o.Y == sh.Y || (tb.T(o.Y).String() == tb.T(sh.Y).String())) {
+					found = true
+				}
+			}
+			if !found {
+				return broken, "at " + c.W.pos(sh.Pos()) + " the window start moves by " + short(tb.T(sh.Y).String()) + " but " + what + " does not move with it: " + consequence
+			}
+		}
+		return unknown, ""
+	}
+	okInit, offInit := false, ""
 	if e0, ok := er[0].(*ssa.BinOp); ok && e0.Op == token.ADD {
 		okInit = (e0.X == sr[0] && tb.T(e0.Y).isParam(0)) || (e0.Y == sr[0] && tb.T(e0.X).isParam(0))
+		if !okInit {
+			b, k := tb.T(e0).linear()
+			_ = b
+			if (e0.X == sr[0] || e0.Y == sr[0]) && k != 0 {
+				offInit = fmt.Sprintf("end is initialised to start+length%+d", k)
+			}
+		}
 	}
-	_ = eb
 	par := proveParallel(E, S, er[0], sr[0], map[[2]ssa.Value]bool{})
-	c.check(okInit && par, "INVARIANT", "end-start=length", app.Pos(), "end is initialised to start+length and every update moves both by the same amount", fmt.Sprintf("cannot show end-start == length at the append (end0 = start0+length: %v; updates in lock step: %v)", okInit, par))
+	stI, whyI := holds, ""
+	switch {
+	case okInit && par:
+	case offInit != "":
+		stI, whyI = broken, offInit+": barcodes do not have the requested length"
+	case okInit:
+		stI, whyI = pairing(E, "end", "the barcode appended is longer or shorter than requested")
+		if stI == unknown {
+			whyI = "could not show that end and start move in lock step"
+		}
+	default:
+		stI, whyI = unknown, "end is not visibly initialised to start+length"
+	}
+	c.judge(stI, "INVARIANT", "end-start=length", app.Pos(), "end is initialised to start+length and every update moves both by the same amount", whyI)
 	// STRIDE
 	st := tb.T(sr[0])
 	strideOK := false
 	var numRoot ssa.Value
+	stST, whyST := unknown, "window start is "+short(st.String())
 	if b0, ok := sr[0].(*ssa.BinOp); ok && b0.Op == token.MUL {
 		for k := 0; k < 2; k++ {
 			x, y := b0.X, b0.Y
 			if k == 1 {
 				x, y = y, x
 			}
-			if tb.T(y).String() == "binop[-](param[0], binop[-](param[1], const[1]))" {
-				if _, isPhi := x.(*ssa.Phi); isPhi {
-					strideOK = true
-					numRoot = x
+			if _, isPhi := x.(*ssa.Phi); !isPhi {
+				continue
+			}
+			want := "binop[-](param[0], binop[-](param[1], const[1]))"
+			yt := tb.T(y)
+			switch {
+			case yt.String() == want:
+				strideOK = true
+				numRoot = x
+				stST = holds
+			case len(opaqueParts(yt, nil)) == 0:
+				// stride as a linear form in length and n: must be length - n + 1
+				lf, k0, _ := linearForm(yt)
+				if lf["param[0]"] == 1 && lf["param[1]"] == -1 && k0 == 1 && len(lf) == 2 {
+					strideOK, numRoot, stST = true, x, holds
+				} else if len(lf) <= 2 && (lf["param[0]"] != 0 || lf["param[1]"] != 0) {
+					stST, whyST = broken, "the stride between barcodes is "+short(yt.String())+"; it must be length-(n-1) so that consecutive barcodes share fewer than n letters (no common n-letter word)"
 				}
 			}
 		}
 	}
-	c.check(strideOK, "STRIDE", "start0=barcodeNum*(length-(n-1))", app.Pos(), "stride leaves n-1 letters of overlap", "window start is "+short(st.String())+"; want barcodeNum*(length-(maxSubSequence-1))")
+	c.judge(stST, "STRIDE", "start0=barcodeNum*(length-(n-1))", app.Pos(), "stride leaves n-1 letters of overlap", whyST)
 	if strideOK {
 		// barcodeNum' feeding the outer phi must be parallel to S from (numRoot+1, start0), and the outer phi = phi(0, that)
 		ph := numRoot.(*ssa.Phi)
-		okNum := len(ph.Edges) == 2
 		var next ssa.Value
 		for _, e := range ph.Edges {
 			if tb.T(e).isConst("0") {
@@ -244,25 +369,30 @@ func ruleC17(c *Ctx) {
 			}
 			next = e
 		}
-		coupled := false
-		if okNum && next != nil {
-			// find N base: numRoot + 1
-			for _, r := range webRoots(next) {
-				if r == numRoot {
-					// base is numRoot itself: the increment is part of the web: find the x+1 whose X is numRoot
-				}
-			}
+		stC, whyC := unknown, "the counter's update was not recognised"
+		if len(ph.Edges) == 2 && next != nil {
 			var nbase ssa.Value
 			for _, s := range shiftSites(next) {
 				if s.X == numRoot {
 					nbase = s
 				}
 			}
-			if nbase != nil {
-				coupled = proveParallel(next, S, nbase, sr[0], map[[2]ssa.Value]bool{})
+			switch {
+			case nbase == nil:
+				stC, whyC = broken, "barcodeNum is not advanced once per accepted barcode: the next window starts where this one did"
+				if len(shiftSites(next)) > 0 {
+					stC, whyC = unknown, "barcodeNum is advanced in a form the rule does not know"
+				}
+			case proveParallel(next, S, nbase, sr[0], map[[2]ssa.Value]bool{}):
+				stC = holds
+			default:
+				stC, whyC = pairing(next, "barcodeNum", "the next stride window starts before the shifted barcode ends minus n-1, so two barcodes share an n-letter word")
+				if stC == unknown {
+					whyC = "could not show that barcodeNum moves in lock step with the window"
+				}
 			}
 		}
-		c.check(coupled, "STRIDE", "every window shift also advances barcodeNum", app.Pos(), "barcodeNum starts at num+1 and is incremented in lock step with start/end, so the next window begins at or after end-(n-1)", "a +1 shift of the window is not matched by barcodeNum+1 (or barcodeNum is not advanced once per barcode): the next stride window overlaps the shifted barcode in an n-mer")
+		c.judge(stC, "STRIDE", "every window shift also advances barcodeNum", app.Pos(), "barcodeNum starts at num+1 and is incremented in lock step with start/end, so the next window begins at or after end-(n-1)", whyC)
 	}
 	// RETEST + FRESHCHECK
 	shifts := shiftSites(S)
@@ -274,18 +404,18 @@ func ruleC17(c *Ctx) {
 		}
 		nShift++
 		blk := sh.Block()
-		// the loop containing the shift: header = nearest dominator that is a loop header reaching blk
 		hdr := enclosingLoopHeader(blk)
-		okRetest := false
-		why := "shift is not inside a loop"
+		stR, why := unknown, "shift is not inside a loop"
 		var testDesc string
 		if hdr != nil {
 			if ifi, ok := hdr.Instrs[len(hdr.Instrs)-1].(*ssa.If); ok {
 				cond := tb.T(ifi.Cond)
 				// the loop condition must be a call taking debruijn[start':end'] where start' is the header phi merged with this shift
 				usesWindow := false
+				testsWindow := false
 				cond.walk(func(x *Term) {
 					if sl, ok := x.V.(*ssa.Slice); ok && x.Op == "slice" && tb.T(sl.X).String() == deb {
+						testsWindow = true
 						if ph, ok := sl.Low.(*ssa.Phi); ok && ph.Block() == hdr {
 							for _, e := range ph.Edges {
 								if e == ssa.Value(sh) {
@@ -295,19 +425,37 @@ func ruleC17(c *Ctx) {
 						}
 					}
 				})
-				testDesc = cond.Name
-				if cond.Op == "unop" && len(cond.Args) == 1 {
-					testDesc = cond.Args[0].Name
-				}
-				if testDesc == "?" || testDesc == "" {
+				switch {
+				case cond.contains(func(x *Term) bool { return x.isCall("strings.Contains") || x.isCall("strings.Index") }):
+					testDesc = "strings.Contains"
+				default:
 					testDesc = "filter"
 				}
 				if cond.contains(func(x *Term) bool { return x.isCall("poly/transform.ReverseComplement") }) {
 					testDesc += "(rc)"
 				}
-				okRetest = usesWindow
-				why = "the loop around the shift does not re-test the shifted window"
-				// bound check: a return guarded by end+1 > len(debruijn) dominates the shift
+				if !testsWindow {
+					// which test guards this shift, if the loop itself does not test the window
+					testDesc = "filter"
+					pcs := pathCond(tb, cb.Blocks[0], blk)
+					for _, a := range pcs.atoms() {
+						if a.Atom.contains(func(x *Term) bool { return x.isCall("strings.Contains") || x.isCall("strings.Index") }) {
+							testDesc = "strings.Contains"
+							if a.Atom.contains(func(x *Term) bool { return x.isCall("poly/transform.ReverseComplement") }) {
+								testDesc += "(rc)"
+							}
+						}
+					}
+				}
+				switch {
+				case usesWindow:
+					stR = holds
+				case !testsWindow:
+					stR, why = broken, "the window is moved once and accepted without being tested again: the loop around this shift ("+c.W.pos(hdr.Instrs[0].Pos())+") does not test the window, so a second occurrence of the banned sequence (or a filter rejection) in the shifted window goes unnoticed"
+				default:
+					why = "the loop around the shift tests a window, but not visibly the shifted one"
+				}
+				// bound check: a return guarded by end+k > len(debruijn) dominates the shift
 				bounded := false
 				for d := blk; d != nil && d != hdr; d = d.Idom() {
 					p := d.Idom()
@@ -321,13 +469,12 @@ func ruleC17(c *Ctx) {
 						}
 					}
 				}
-				if !bounded {
-					okRetest = false
-					why = "the shift is not bounded by the end of the De Bruijn sequence"
+				if !bounded && stR == holds {
+					stR, why = unknown, "no guard comparing the shifted end with len(debruijn) dominates the shift"
 				}
 			}
 		}
-		c.check(okRetest, "RETEST", "shift after "+testDesc, sh.Pos(), "the shifted window is re-tested by the loop condition and bounded by len(debruijn)", why)
+		c.judge(stR, "RETEST", "shift after "+testDesc, sh.Pos(), "the shifted window is re-tested by the loop condition and bounded by len(debruijn)", why)
 		// FRESHCHECK: every path from this shift to the append must re-enter, from outside, every loop that iterates over tests
 		if len(testLoops) == 0 {
 			for _, b := range cb.Blocks {
@@ -354,27 +501,160 @@ func ruleC17(c *Ctx) {
 		c.check(len(stale) == 0, "FRESHCHECK", "tests restarted after shift in "+testDesc, sh.Pos(), "after this shift every test loop is restarted before the barcode is accepted", "after this shift the barcode can be appended without re-running the tests of "+strings.Join(stale, ", ")+": an earlier verdict (ban, reverse complement or filter) is stale for the shifted window")
 	}
 	if nShift == 0 {
-		c.bad("RETEST", "shifts", cb.Pos(), "no window shift found (unrecognised shape)")
+		c.undecided("RETEST", "shifts", cb.Pos(), "no window shift found")
 	}
 	// every test guards the append: bans, rc(bans) and filters are each consulted
 	var haveBan, haveRC, haveFn bool
-	eachInstr(cb, func(i ssa.Instruction) {
-		if cl, ok := i.(*ssa.Call); ok {
-			t := tb.T(cl)
-			if t.isCall("strings.Contains") && strings.HasPrefix(t.Args[0].String(), "slice("+deb) {
-				if t.Args[1].String() == "each(param[2])" {
+	var filtered []string
+	fam := family(cb)
+	for _, f := range fam {
+		ftb := newTB(f)
+		eachInstr(f, func(i ssa.Instruction) {
+			cl, ok := i.(*ssa.Call)
+			if !ok {
+				return
+			}
+			t := ftb.T(cl)
+			if f == cb && (t.isCall("strings.Contains") || t.isCall("strings.Index")) && strings.HasPrefix(t.Args[0].String(), "slice("+deb) {
+				arg := t.Args[1]
+				if arg.String() == "each(param[2])" {
 					haveBan = true
 				}
-				if t.Args[1].String() == "call[poly/transform.ReverseComplement](each(param[2]))" {
+				if arg.String() == "call[poly/transform.ReverseComplement](each(param[2]))" {
 					haveRC = true
 				}
+				// a derived list of strands: every ban (and its reverse complement) must get into it unconditionally
+				if arg.Op == "each" && len(arg.Args) == 1 {
+					sites := topAppendSites(arg.Args[0])
+					if len(sites) == 0 && arg.Args[0].V != nil {
+						for _, ac := range appendWeb(arg.Args[0].V) {
+							sites = append(sites, appSite{Elem: ftb.T(ac.Call.Args[1]), At: ac})
+						}
+					}
+					for _, site := range sites {
+						es := site.Elem.String()
+						isBan := es == "each(param[2])" || strings.Contains(es, "partial[[0]](each(param[2]))")
+						isRC := strings.Contains(es, "call[poly/transform.ReverseComplement](each(param[2]))")
+						if !isBan && !isRC {
+							continue
+						}
+						haveBan = haveBan || isBan
+						haveRC = haveRC || isRC
+						if entry := loopBodyEntry(site.At.Block()); entry != nil {
+							pcd := pathCond(ftb, entry, site.At.Block())
+							nOp := 0
+							for _, a := range pcd.atoms() {
+								nOp += len(opaqueParts(a.Atom, vocabOf("call[poly/transform.ReverseComplement](x)")))
+							}
+							if pcd.Op != "true" && nOp == 0 {
+								filtered = append(filtered, "a banned sequence gets into the list that is tested only under "+short(pcd.String())+" (at "+c.W.pos(site.At.Pos())+"): the others are never looked for in a barcode")
+							}
+						}
+					}
+				}
 			}
-			if t.Op == "call" && t.Name == "?" && len(t.Args) == 2 && t.Args[0].String() == "each(param[3])" && strings.HasPrefix(t.Args[1].String(), "slice("+deb) {
+			if f == cb && t.Op == "call" && t.Name == "?" && len(t.Args) == 2 && t.Args[0].String() == "each(param[3])" && strings.HasPrefix(t.Args[1].String(), "slice("+deb) {
 				haveFn = true
 			}
+		})
+		// a predicate helper that folds verdicts: each verdict must be combined with the earlier ones
+		if f != cb && f.Signature.Results().Len() == 1 && tname(f.Signature.Results().At(0).Type()) == "bool" {
+			if why := overwrittenVerdict(ftb, f); why != "" {
+				filtered = append(filtered, fname(f)+": "+why)
+			}
+			eachInstr(f, func(i ssa.Instruction) {
+				if cl, ok := i.(*ssa.Call); ok && cl.Call.StaticCallee() == nil && !cl.Call.IsInvoke() {
+					if _, isBuiltin := cl.Call.Value.(*ssa.Builtin); !isBuiltin {
+						haveFn = true
+					}
+				}
+			})
 		}
-	})
-	c.check(haveBan && haveRC && haveFn, "RETEST", "all three test kinds present", cb.Pos(), "window tested against each ban, each reverse-complemented ban and each filter", fmt.Sprintf("tests present: ban=%v rc(ban)=%v filter=%v", haveBan, haveRC, haveFn))
+	}
+	switch {
+	case len(filtered) > 0:
+		c.bad("RETEST", "all three test kinds present", cb.Pos(), strings.Join(filtered, "; "))
+	case haveBan && haveRC && haveFn:
+		c.ok("RETEST", "all three test kinds present", cb.Pos(), "window tested against each ban, each reverse-complemented ban and each filter")
+	default:
+		c.undecided("RETEST", "all three test kinds present", cb.Pos(), fmt.Sprintf("tests recognised: ban=%v rc(ban)=%v filter=%v", haveBan, haveRC, haveFn))
+	}
 	// CreateBarcodes wrapper
 	checkReturnIs(c, "TERM", "CreateBarcodes", w.fn("primers", "CreateBarcodes"), 0, "call[poly/primers.CreateBarcodesWithBannedSequences](param[0], param[1], slice(zero[[0]string], nil, nil), slice(zero[[0]func(string) bool], nil, nil))", "CreateBarcodes = CreateBarcodesWithBannedSequences(length, n, none, none)")
+}
+
+// overwrittenVerdict: f returns a bool variable that a loop assigns a fresh verdict on every iteration
+// without combining it with the previous value (no &&, no early return on false): only the last
+// element's verdict survives. Returns a description, or "" when that is not the case.
+func overwrittenVerdict(tb *TermBuilder, f *ssa.Function) string {
+	for _, r := range returnsOf(f) {
+		if len(r.Results) != 1 {
+			continue
+		}
+		ph, ok := r.Results[0].(*ssa.Phi)
+		if !ok {
+			continue
+		}
+		hdr := ph.Block()
+		if !inLoop(hdr) {
+			continue
+		}
+		for k, e := range ph.Edges {
+			pred := hdr.Preds[k]
+			if !(hdr.Dominates(pred) && reaches(pred, hdr)) {
+				continue
+			}
+			// the back-edge value: a call result that does not depend on the phi, assigned unconditionally
+			if cl, ok := e.(*ssa.Call); ok {
+				dependsOnPhi := false
+				for _, a := range cl.Call.Args {
+					if a == ssa.Value(ph) {
+						dependsOnPhi = true
+					}
+				}
+				entry := loopBodyEntry(cl.Block())
+				uncond := entry != nil && pathCond(tb, entry, cl.Block()).Op == "true"
+				earlyExit := false
+				for _, b := range f.Blocks {
+					if b != hdr && hdr.Dominates(b) && reaches(b, hdr) {
+						for _, s := range b.Succs {
+							if !(s == hdr || (hdr.Dominates(s) && reaches(s, hdr))) {
+								earlyExit = true
+							}
+						}
+					}
+				}
+				if !dependsOnPhi && uncond && !earlyExit {
+					return "the verdict variable is overwritten by every element's call (at " + currentWorld.pos(cl.Pos()) + ") and the loop never leaves early: only the last predicate's answer is returned, earlier rejections are forgotten"
+				}
+			}
+		}
+	}
+	return ""
+}
+
+// appendWeb lists the append calls in the web of phis and appends behind a slice value.
+func appendWeb(v ssa.Value) []*ssa.Call {
+	seen := map[ssa.Value]bool{}
+	var out []*ssa.Call
+	var walk func(v ssa.Value)
+	walk = func(v ssa.Value) {
+		if seen[v] {
+			return
+		}
+		seen[v] = true
+		switch x := v.(type) {
+		case *ssa.Phi:
+			for _, e := range x.Edges {
+				walk(e)
+			}
+		case *ssa.Call:
+			if calleeName(x) == "builtin:append" {
+				out = append(out, x)
+				walk(x.Call.Args[0])
+			}
+		}
+	}
+	walk(v)
+	return out
 }
